@@ -79,19 +79,9 @@ C02Alt(E, S, line) ==
              ELSE NoRes >>)])
 
 ----------------------------------------------------------------------------
-\* C09 (+ the span clause of C05): markup of one hit against the public tokenisation of its title
-C09Hit(h, E, S, line) ==
-  LET s == S.s IN
-  IF Sentinels(s) /\ ~HasRecS(S, h.id) /\ Has(E, "q") THEN
-    \* a hit that is not a record of the store (C02 reports that): the count rule can still be judged
-    LET p0 == ParseHL(h.title) IN
-    IF QHasAlnum(E) THEN ChkIf(p0.ok, Len(p0.spans) >= 1, line, "C09", "hit for a query with a letter or digit has no highlight")
-                    ELSE ChkIf(p0.ok, Len(p0.spans) = 0, line, "C09", "hit for a query without letter or digit is highlighted")
-  ELSE
-  IF ~(HasRecS(S, h.id) /\ Sentinels(s) /\ SentinelFree(RecOfS(S, h.id).title)) THEN NoRes
-  ELSE
-  LET p    == ParseHL(h.title)
-      tok  == RecOfS(S, h.id).tok
+\* the markup clauses on a parsed title (plain text + spans), whichever markers it was rendered with
+C09Parsed(p, h, E, S, line) ==
+  LET tok  == RecOfS(S, h.id).tok
       okLen == p.ok /\ Len(p.plain) = Len(StripNul(tok.source))
   IN JoinAll(<<
        Chk(p.ok, line, "C09", "markers do not alternate"),
@@ -113,6 +103,34 @@ C09Hit(h, E, S, line) ==
          THEN IF QHasAlnum(E) THEN Chk(Len(p.spans) >= 1, line, "C09", "hit for a query with a letter or digit has no highlight")
                               ELSE Chk(Len(p.spans) = 0, line, "C09", "hit for a query without letter or digit is highlighted")
          ELSE NoRes >>)
+
+
+\* C09 (+ the span clause of C05): markup of one hit against the public tokenisation of its title
+C09Hit(h, E, S, line) ==
+  LET s == S.s IN
+  IF Sentinels(s) /\ ~HasRecS(S, h.id) /\ Has(E, "q") THEN
+    \* a hit that is not a record of the store (C02 reports that): the count rule can still be judged
+    LET p0 == ParseHL(h.title) IN
+    IF QHasAlnum(E) THEN ChkIf(p0.ok, Len(p0.spans) >= 1, line, "C09", "hit for a query with a letter or digit has no highlight")
+                    ELSE ChkIf(p0.ok, Len(p0.spans) = 0, line, "C09", "hit for a query without letter or digit is highlighted")
+  ELSE
+  IF ~(HasRecS(S, h.id) /\ Sentinels(s) /\ SentinelFree(RecOfS(S, h.id).title)) THEN NoRes
+  ELSE
+  C09Parsed(ParseHL(h.title), h, E, S, line)
+
+\* C09 under other markers than the sentinels: when the same search was repeated with a marker pair that can be parsed
+\* unambiguously (MarkersParseable, and no marker character occurs in the record's title), the returned title is parsed
+\* with those markers and judged by the same clauses - the property speaks of the configured markers, whatever they are
+C09Alt(E, S, line) ==
+  IF ~Has(E, "alt") \/ ~Has(E, "hits") THEN NoRes
+  ELSE JoinAll([k \in DOMAIN E.alt |->
+         LET A == E.alt[k]  L == StripNul(A.l)  R == StripNul(A.r) IN
+         IF ~MarkersParseable(L, R) \/ Has(A, "panic") THEN NoRes
+         ELSE JoinAll([i \in DOMAIN A.hits |->
+                LET h == A.hits[i] IN
+                IF HasRecS(S, h.id) /\ SeqRange(RecOfS(S, h.id).title) \cap (SeqRange(L) \cup SeqRange(R)) = {}
+                  THEN C09Parsed(ParseWith(h.title, L, R), h, E, S, line)
+                  ELSE NoRes])])
 
 ----------------------------------------------------------------------------
 \* C05: every hit shares a gram with the query
